@@ -179,6 +179,13 @@ def check_loop(func, loop, p, frozen=()):
                         is_red = True
                     if isinstance(v, ast.BinOp) and isinstance(v.op, REDUCE_OPS) and any(isinstance(e, ast.Name) and e.id == t.id for e in (v.left, v.right)):
                         is_red = True
+                    # a flag set to one and the same literal wherever the loop binds it: whichever iteration sets it, the value is the same
+                    if not is_red and isinstance(v, ast.Constant) and isinstance(t, ast.Name):
+                        binds = [b for b in ast.walk(ast.Module(body=body, type_ignores=[])) if isinstance(b, (ast.Assign, ast.AugAssign, ast.AnnAssign, ast.For, ast.NamedExpr, ast.comprehension))
+                                 and any(isinstance(x, ast.Name) and x.id == t.id and isinstance(x.ctx, ast.Store) for x in ast.walk(b.target if not isinstance(b, ast.Assign) else ast.Tuple(elts=b.targets, ctx=ast.Store())))]
+                        if binds and all(isinstance(b, ast.Assign) and len(b.targets) == 1 and isinstance(b.targets[0], ast.Name) and isinstance(b.value, ast.Constant)
+                                         and b.value.value == v.value and type(b.value.value) is type(v.value) for b in binds):
+                            is_red = True
                     if is_red:
                         reduced.add(t.id)
                     else:
